@@ -44,6 +44,10 @@ CHECKS = {
     technique='TLA+ SioServer.tla (residue config, raising handlers) + exhaustive graph validation + reachability scan of the real server object',
     text='C11_NoResidue and C11_FreshWhenEmpty on spec and on every implementation state; the projection adds a walk of everything reachable from the server object looking for ids of departed clients. Known finding D3 (raising disconnect handler) is modelled as a named deviation; the design without it is model-checked too.',
     ref='4/C11', note=SRV_NOTE),
+ 'C12': dict(
+    technique='TLA+ SioServer.tla (hostile config: RxRaw classes, foreign/absurd ids, stray attachments) + exhaustive graph validation on both servers',
+    text='C12_Isolation is an invariant over EVERY frame action of the offender transport in EVERY reachable state: nothing is sent to another transport, no handler runs with another client\'s sid, the bystanders\' view (rooms, callbacks, sessions, binary buffers, environ, pending) is unchanged, undecodable/ill-typed frames (classified by the reference reading of the frame) reach no handler and change nothing. 23 concrete malformed frames + well-formed hostile traffic (bystanders\' ack ids, absurd ids, attachment counts 0 / 10^9, stray attachments, unknown namespaces) interleaved with bystander traffic; bystander actions after any offender prefix are ordinary validated edges.',
+    ref='4/C12', note=SRV_NOTE + ' The resource clause (allocation proportional to declared counts) is covered only structurally: the buffer holds received attachments only (binbuf.atts grows by one per received frame).'),
  'C13': dict(
     technique='TLA+ Dispatch.tla: documented precedence vs transcribed resolvers on the full lattice (TLC), every lattice point replayed on the four real classes and judged by TLC (DispatchCases.tla)',
     text='512-point lattice x ordinary/reserved events: TLC proves SrvResolve = CliResolve = DocResolve, function-beats-class, reserved-never-catch-all; 5376 (quick) real registries on Server/AsyncServer/Client/AsyncClient x sync/coroutine deliver a real frame / connect flow and TLC compares the callable that ran and its argument list with DocResolve; coverage of the lattice per class is checked by TLC.',
